@@ -30,7 +30,7 @@ func init() {
 func runC18(c *Ctx) {
 	p := c.P
 	pk := p.ByPath[pkgMemLim]
-	c.Rule("R1", "ORD+PROV", "the refuse flag is stored on every path of the check before returning; the stored value is a soft-limit evaluation of the last measurement on that path", 5)
+	c.Rule("R1", "ORD+PROV", "the refuse flag is stored on every path of the check before returning; the stored value is a soft-limit evaluation of the last measurement on that path", 2)
 	if pk == nil {
 		c.Anchor("internal/memorylimiter")
 		return
@@ -49,37 +49,52 @@ func runC18(c *Ctx) {
 			flagF = st.Field(i).Name()
 		}
 	}
-	// the check: method storing the flag
+	// the check: the limiter method from which a measurement and a store of the flag are reached (directly or through
+	// helpers of the package), outermost such method that is not a goroutine body (no select, no go statement)
 	var check *ssa.Function
+	storesFlag := func(in ssa.Instruction) bool {
+		ci, ok := in.(ssa.CallInstruction)
+		return ok && isMethod(calleeOf(ci), "sync/atomic", "Bool", "Store") && isFieldAccess(ci.Common().Args[0], mlT, flagF)
+	}
+	probe := &c18Anchors{mlT: mlT}
+	measuresMem := func(in ssa.Instruction) bool {
+		ci, ok := in.(ssa.CallInstruction)
+		return ok && probe.dynKind(ci) == "measure"
+	}
+	isLoopBody := func(in ssa.Instruction) bool {
+		switch in.(type) {
+		case *ssa.Select, *ssa.Go:
+			return true
+		}
+		return false
+	}
+	var cands []*ssa.Function
 	for _, fn := range funcs {
 		if fn.Parent() != nil || recvNamedOfFn(fn) != mlT {
 			continue
 		}
-		for _, ci := range callsNamed(fn, func(f *types.Func) bool { return isMethod(f, "sync/atomic", "Bool", "Store") }) {
-			if isFieldAccess(ci.Common().Args[0], mlT, flagF) {
-				check = fn
+		if len(deepSites(fn, storesFlag, 3)) > 0 && len(deepSites(fn, measuresMem, 3)) > 0 && len(deepSites(fn, isLoopBody, 0)) == 0 {
+			cands = append(cands, fn)
+		}
+	}
+	for _, fn := range cands {
+		called := false
+		for _, other := range cands {
+			if other != fn && len(deepSites(other, func(in ssa.Instruction) bool {
+				ci, ok := in.(ssa.CallInstruction)
+				return ok && staticCalleeFn(ci) == fn
+			}, 3)) > 0 {
+				called = true
 			}
+		}
+		if !called {
+			check = fn
 		}
 	}
 	if check == nil || flagF == "" {
-		c.Anchor("memory check method (stores the refuse flag)")
+		c.Anchor("memory check method (measures and stores the refuse flag)")
 		return
 	}
-	// classify helper functions: measurement = returns *runtime.MemStats; GC routine = measurement that also calls the GC hook
-	isMeasure := func(f *ssa.Function) bool {
-		if f == nil || f.Signature.Results().Len() != 1 {
-			return false
-		}
-		pt, ok := f.Signature.Results().At(0).Type().(*types.Pointer)
-		return ok && typeIs(pt.Elem(), "runtime", "MemStats")
-	}
-	var gcFn *ssa.Function
-	for _, fn := range funcs {
-		if fn.Parent() == nil && isMeasure(fn) && len(fieldStores(fn, mlT, "lastGCDone")) > 0 {
-			gcFn = fn
-		}
-	}
-	var stores, measures, softEvals, hardEvals []ssa.CallInstruction
 	var softFn, hardFn *ssa.Function
 	// comparator helpers: methods returning bool taking *MemStats
 	for _, fn := range funcs {
@@ -108,178 +123,25 @@ func runC18(c *Ctx) {
 			hardFn = fn
 		}
 	}
-	if softFn == nil || hardFn == nil || gcFn == nil {
-		c.Anchor(fmt.Sprintf("soft/hard comparator helpers and GC routine (soft=%v hard=%v gc=%v)", softFn != nil, hardFn != nil, gcFn != nil))
+	if softFn == nil || hardFn == nil {
+		c.Anchor(fmt.Sprintf("soft/hard comparator helpers (soft=%v hard=%v)", softFn != nil, hardFn != nil))
 		return
 	}
-	allInstrs(check, func(in ssa.Instruction) {
-		ci, ok := in.(ssa.CallInstruction)
-		if !ok {
-			return
-		}
-		if isMethod(calleeOf(ci), "sync/atomic", "Bool", "Store") && isFieldAccess(ci.Common().Args[0], mlT, flagF) {
-			stores = append(stores, ci)
-		}
-		cf := staticCalleeFn(ci)
-		if cf == nil {
-			return
-		}
-		switch {
-		case isMeasure(cf):
-			measures = append(measures, ci)
-		case cf == softFn:
-			softEvals = append(softEvals, ci)
-		case cf == hardFn:
-			hardEvals = append(hardEvals, ci)
-		}
-	})
-	// every return preceded by a store
-	viaStore := instrSet(stores)
-	esc, ret := reachesReturnWithout(check, nil, viaStore)
-	c.Check(!esc, "every path of the check stores the refuse flag", p.Pos(check.Pos()), "all returns preceded by a store", fmt.Sprintf("the return at %s is reachable without storing the decision: the limiter keeps a stale mode", posOf(p, ret)))
-	for i, s := range stores {
-		name := fmt.Sprintf("refuse-flag store #%d", i+1)
-		val := s.Common().Args[1]
-		// (a) value is a soft-limit evaluation (through phis)
-		var evals []ssa.CallInstruction
-		okVal := true
-		var walk func(v ssa.Value, seen map[ssa.Value]bool)
-		walk = func(v ssa.Value, seen map[ssa.Value]bool) {
-			if seen[v] {
-				return
-			}
-			seen[v] = true
-			switch x := v.(type) {
-			case *ssa.Phi:
-				for _, e := range x.Edges {
-					walk(e, seen)
-				}
-			case *ssa.Call:
-				if staticCalleeFn(x) == softFn {
-					evals = append(evals, x)
-				} else {
-					okVal = false
-				}
-			case *ssa.Const:
-				// a constant is the evaluation itself where the store is guarded by that evaluation having this value
-				// (`if !aboveSoft { flag.Store(false) }`)
-				k, isBool := constBool(x)
-				found := false
-				if isBool && v == val {
-					for _, g := range guardsOf(s.Block()) {
-						gv, pol := boolOf(g)
-						if cl, ok := gv.(*ssa.Call); ok && staticCalleeFn(cl) == softFn && pol == k {
-							evals = append(evals, cl)
-							found = true
-						}
-					}
-				}
-				if !found {
-					okVal = false
-				}
-			default:
-				okVal = false
-			}
-		}
-		walk(val, map[ssa.Value]bool{})
-		c.Check(okVal && len(evals) > 0, name+" stores a soft-limit evaluation", p.Pos(s.Pos()), fmt.Sprintf("phi of %d aboveSoftLimit evaluations", len(evals)), "the stored decision is not (only) the result of the soft-limit comparison (e.g. the hard-limit comparison after a GC): the limiter stops refusing while usage is still at or above limit − spike")
-		// (b) every measurement reaching the store is evaluated on the way
-		for _, m := range measures {
-			if !canReach(m, s, nil) {
-				continue
-			}
-			via := map[ssa.Instruction]bool{}
-			for _, e := range softEvals {
-				if sameValue(e.Common().Args[len(e.Common().Args)-1], m.(ssa.Value)) {
-					via[e.(ssa.Instruction)] = true
-				}
-			}
-			// a later measurement also supersedes it
-			for _, m2 := range measures {
-				if m2 != m && canReach(m, m2, nil) {
-					via[m2.(ssa.Instruction)] = true
-				}
-			}
-			c.Check(!canReach(m, s, via), fmt.Sprintf("%s: measurement at %s is evaluated before the store", name, p.Pos(m.Pos())), p.Pos(m.Pos()), "re-evaluated against the soft limit", "a (re-)measurement reaches the store without being compared with the soft limit: the decision is based on a stale reading")
-		}
-		// (c) no measurement between an evaluation used and the store
-		for _, e := range evals {
-			stale := false
-			for _, m := range measures {
-				if canReach(e, m, nil) && canReach(m, s, nil) {
-					// fine if that path also re-evaluates and the phi takes the newer one: checked by (b); here we
-					// require that the store cannot take e's value after m: e's block must not dominate the path m→s
-					// conservatively: m is not dominated by e on a path that reaches s without another evaluation
-					via := map[ssa.Instruction]bool{}
-					for _, e2 := range softEvals {
-						if e2 != ssa.CallInstruction(e) {
-							via[e2.(ssa.Instruction)] = true
-						}
-					}
-					if canReach(m, s, via) {
-						stale = true
-					}
-				}
-			}
-			c.Check(!stale, fmt.Sprintf("%s: evaluation at %s is of the latest measurement", name, p.Pos(e.Pos())), p.Pos(e.Pos()), "no later measurement without re-evaluation", "a later measurement is not re-evaluated")
-		}
+	// R1 and R2 are decided by executing the check on a finite model of measurements, elapsed time and the flag
+	// (c18mx_A8.go): merged or split branches, hoisted locals and extracted helpers do not change the verdict
+	anc := findC18Anchors(p, mlT, funcs, softFn, hardFn)
+	anc.check = check
+	for _, m := range anc.missing {
+		c.Anchor(m)
 	}
+	if len(anc.missing) > 0 {
+		return
+	}
+	runC18CheckModel(c, anc, "R1")
 
 	// ---------- R2 GC gating
-	c.Rule("R2", "GATE", "every forced GC is unreachable from the below-soft-limit side and dominated by time.Since(lastGCDone) > interval – the hard-limit interval on the above-hard side, the soft-limit interval otherwise; the GC routine records lastGCDone after running the GC", 4)
-	var gcCalls []ssa.CallInstruction
-	for _, m := range measures {
-		if staticCalleeFn(m) == gcFn {
-			gcCalls = append(gcCalls, m)
-		}
-	}
-	if len(gcCalls) == 0 {
-		c.Bad("forced GC sites", p.Pos(check.Pos()), "the check never forces a GC")
-	}
-	for i, g := range gcCalls {
-		name := fmt.Sprintf("forced GC #%d", i+1)
-		var aboveSoft, aboveHard, notHard bool
-		timeField := ""
-		for _, gd := range guardsOf(g.Block()) {
-			v, br := boolOf(gd)
-			if call, ok := v.(*ssa.Call); ok {
-				switch staticCalleeFn(call) {
-				case softFn:
-					aboveSoft = br
-				case hardFn:
-					aboveHard, notHard = br, !br
-				}
-			}
-			op, x, y, ok := cmpOf(gd)
-			if ok && op == token.GTR {
-				if call, ok := x.(*ssa.Call); ok && calleeOf(call) != nil && calleeOf(call).FullName() == "time.Since" && isFieldAccess(call.Call.Args[0], mlT, "lastGCDone") {
-					if _, path := fieldChain(y); len(path) > 0 {
-						timeField = path[len(path)-1]
-					}
-				}
-			}
-		}
-		c.Check(aboveSoft, name+" only while above the soft limit", p.Pos(g.Pos()), "guarded by aboveSoftLimit", "a GC can be forced while usage is below the soft limit")
-		wantHard := strings.Contains(strings.ToLower(timeField), "hard")
-		wantSoft := strings.Contains(strings.ToLower(timeField), "soft")
-		okInt := timeField != "" && ((aboveHard && wantHard) || (notHard && wantSoft))
-		c.Check(okInt, name+" only after the minimum interval of its severity", p.Pos(g.Pos()), "dominated by time.Since(lastGCDone) > "+timeField, fmt.Sprintf("interval guard field=%q, above-hard side=%v, below-hard side=%v: the GC is not gated by the elapsed-time test of its severity (e.g. the test is OR-ed with another condition)", timeField, aboveHard, notHard))
-	}
-	{
-		okRec := false
-		var gcHook ssa.CallInstruction
-		allInstrs(gcFn, func(in ssa.Instruction) {
-			if ci, ok := in.(ssa.CallInstruction); ok && isFieldAccess(ci.Common().Value, mlT, "runGCFn") {
-				gcHook = ci
-			}
-		})
-		for _, s := range fieldStores(gcFn, mlT, "lastGCDone") {
-			if gcHook != nil && instrDominates(gcHook, s) && len(guardsOf(s.Block())) == 0 {
-				okRec = true
-			}
-		}
-		c.Check(okRec, "the GC routine records the time of the GC", p.Pos(gcFn.Pos()), "lastGCDone stored after the GC hook", "lastGCDone is not updated when a GC is forced: the interval gating never engages")
-	}
+	c.Rule("R2", "GATE", "every forced GC is unreachable from the below-soft-limit side and dominated by time.Since(lastGCDone) > interval – the hard-limit interval on the above-hard side, the soft-limit interval otherwise; the GC routine records lastGCDone after running the GC", 3)
+	runC18CheckModel(c, anc, "R2")
 
 	// ---------- R3 comparators
 	c.Rule("R3", "TAB", "soft limit: Alloc >= memAllocLimit − memSpikeLimit; hard limit: Alloc >= memAllocLimit (comparator normal forms)", 2)
@@ -489,50 +351,74 @@ func runC18Wiring(c *Ctx) {
 		return
 	}
 	n := 0
-	for _, fn := range p.AllSrcFuncs(ppk) {
-		if fn.Parent() != nil || !strings.HasPrefix(fn.Name(), "process") || fn.Signature.Results().Len() != 2 {
-			continue
+	// the process functions: (ctx, payload) → (payload, error) functions of the package from which the limiter's MustRefuse
+	// is reached; each is executed with the limiter refusing and not refusing (c18mx_A8.go), so the test may live in a
+	// helper shared by the signals
+	mlT := p.LookupType(relPkg(pkgMemLim), "MemoryLimiter")
+	pfuncs := p.AllSrcFuncs(ppk)
+	asksLimiter := func(in ssa.Instruction) bool {
+		ci, ok := in.(ssa.CallInstruction)
+		if !ok {
+			return false
 		}
-		mr := calls(fn, func(ci ssa.CallInstruction) bool { f := calleeOf(ci); return f != nil && f.Name() == "MustRefuse" })
-		if len(mr) != 1 {
-			c.Bad("refusal test in "+fnName(fn), p.Pos(fn.Pos()), "no single MustRefuse() test")
+		f := calleeOf(ci)
+		return f != nil && f.Name() == "MustRefuse" && mlT != nil && recvNamed(f) == mlT
+	}
+	relevant := map[*ssa.Function]bool{}
+	for _, fn := range pfuncs {
+		if len(deepSites(fn, asksLimiter, 3)) > 0 {
+			relevant[fn] = true
+		}
+	}
+	for _, fn := range pfuncs {
+		sig := fn.Signature
+		if fn.Parent() != nil || !relevant[fn] || sig.Results().Len() != 2 || sig.Params().Len() != 2 || !isErrorType(sig.Results().At(1).Type()) ||
+			!types.Identical(sig.Results().At(0).Type(), sig.Params().At(1).Type()) || !typeIs(sig.Params().At(0).Type(), "context", "Context") {
 			continue
 		}
 		n++
-		payload := fn.Params[len(fn.Params)-1]
-		okRef, okAcc := false, false
-		allOK := true
-		for _, r := range returnsOf(fn) {
-			res := resultsOf(r)
-			refusing := false
-			guarded := false
-			for _, g := range guardsOf(r.Block()) {
-				v, br := boolOf(g)
-				if v == mr[0].(ssa.Value) {
-					guarded = true
-					refusing = br
+		okRef, okAcc, okAsk := true, true, true
+		detail := ""
+		for _, refuse := range []int64{0, 1} {
+			x := &mxExec{Model: c18ProcessModel(mlT, relevant), Pkg: pkgOfFn(fn)}
+			var args []mxVal
+			if sig.Recv() != nil {
+				args = append(args, mxRef("self"))
+			}
+			args = append(args, mxRef("ctx"), mxRef("payload"))
+			st := x.Start(fn, args)
+			st.M["refuse"] = refuse
+			finals := x.Run(st)
+			if x.Overflow || len(finals) == 0 {
+				okAsk = false
+				detail = "the model execution ran out of paths"
+			}
+			for _, f := range finals {
+				if f.Status == "panic" {
+					continue
 				}
-			}
-			if !guarded {
-				allOK = false
-				continue
-			}
-			if !sameValue(res[0], payload) {
-				allOK = false
-			}
-			if refusing {
-				// error is the package's refusal error, not wrapped as permanent
-				u, ok := strip(res[1]).(*ssa.UnOp)
-				if ok {
-					if g, ok := u.X.(*ssa.Global); ok && g.Name() == "ErrDataRefused" {
-						okRef = true
+				good := f.Status == "return" && len(f.Ret) == 2 && f.Ret[0].K == mxR && f.Ret[0].S == "payload"
+				if good && refuse == 1 {
+					good = f.Ret[1].K == mxR && strings.HasSuffix(f.Ret[1].S, pkgMemLim+".ErrDataRefused")
+				} else if good {
+					good = f.Ret[1].K == mxN
+				}
+				if f.count("mustrefuse") == 0 {
+					okAsk = false
+				}
+				if !good {
+					if refuse == 1 {
+						okRef = false
+					} else {
+						okAcc = false
+					}
+					if detail == "" && len(f.Ret) == 2 {
+						detail = fmt.Sprintf("refusing=%v: returns (%s, %s)", refuse == 1, f.Ret[0], f.Ret[1])
 					}
 				}
-			} else if isNilConst(res[1]) {
-				okAcc = true
 			}
 		}
-		c.Check(allOK && okRef && okAcc, "refusal wiring of "+fnName(fn), p.Pos(fn.Pos()), "MustRefuse ⇒ (input, ErrDataRefused); else (input, nil)", fmt.Sprintf("all returns decided by MustRefuse with the input payload=%v, refusal error on refusing side=%v, nil on accepting side=%v", allOK, okRef, okAcc))
+		c.Check(okRef && okAcc && okAsk, "refusal wiring of "+fnName(fn), p.Pos(fn.Pos()), "MustRefuse ⇒ (input, ErrDataRefused); else (input, nil)", fmt.Sprintf("the limiter is asked on every path=%v, (input, refusal error) while refusing=%v, (input, nil) while accepting=%v %s", okAsk, okRef, okAcc, detail))
 	}
 	if n < 4 {
 		c.Undecided("memory limiter process functions", "-", fmt.Sprintf("%d found (expected 4)", n))
